@@ -4,6 +4,7 @@ import (
 	"fmt"
 	"io"
 	"log"
+	"math"
 	"strconv"
 	"time"
 
@@ -62,6 +63,10 @@ func ValueToJson(dst []byte, t octosql.Type, value octosql.Value) []byte {
 	case octosql.TypeIDInt:
 		return strconv.AppendInt(dst, int64(value.Int), 10)
 	case octosql.TypeIDFloat:
+		if math.IsNaN(value.Float) || math.IsInf(value.Float, 0) {
+			// JSON has no representation for NaN and the infinities.
+			return append(dst, "null"...)
+		}
 		return strconv.AppendFloat(dst, value.Float, 'g', -1, 64)
 	case octosql.TypeIDBoolean:
 		if value.Boolean {
